@@ -5277,8 +5277,8 @@ class DfaCompileCtx:
                 if ignore_map_counter[(frozenset(to_replace.on_values), to_replace.target)] > max_count:
                     continue
 
-            # Shortcircuit the transition
-            if to_replace.error_handling:
+            # Shortcircuit the transition (a transition that matches input stays a real match even if the Else it absorbs was only a default)
+            if to_replace.error_handling and transition.is_fallthrough:
                 transition.handles_else()
 
             transition.attach(*to_replace.actions)
